@@ -16,9 +16,9 @@ func decodeTypeSection(enabledFeatures api.CoreFeatures, r *bytes.Reader) ([]was
 		return nil, fmt.Errorf("get size of vector: %w", err)
 	}
 
-	result := make([]wasm.FunctionType, vs)
+	result := make([]wasm.FunctionType, vectorCap(vs, r))
 	for i := uint32(0); i < vs; i++ {
-		if err = decodeFunctionType(enabledFeatures, r, &result[i]); err != nil {
+		if err = decodeFunctionType(enabledFeatures, r, elementAt(&result, i)); err != nil {
 			return nil, fmt.Errorf("read %d-th type: %v", i, err)
 		}
 	}
@@ -42,9 +42,9 @@ func decodeImportSection(
 	}
 
 	perModule = make(map[string][]*wasm.Import)
-	result = make([]wasm.Import, vs)
+	result = make([]wasm.Import, vectorCap(vs, r))
 	for i := uint32(0); i < vs; i++ {
-		imp := &result[i]
+		imp := elementAt(&result, i)
 		if err = decodeImport(r, i, memorySizer, memoryLimitPages, enabledFeatures, imp); err != nil {
 			return
 		}
@@ -73,9 +73,9 @@ func decodeFunctionSection(r *bytes.Reader) ([]uint32, error) {
 		return nil, fmt.Errorf("get size of vector: %w", err)
 	}
 
-	result := make([]uint32, vs)
+	result := make([]uint32, vectorCap(vs, r))
 	for i := uint32(0); i < vs; i++ {
-		if result[i], _, err = leb128.DecodeUint32(r); err != nil {
+		if *elementAt(&result, i), _, err = leb128.DecodeUint32(r); err != nil {
 			return nil, fmt.Errorf("get type index: %w", err)
 		}
 	}
@@ -93,9 +93,9 @@ func decodeTableSection(r *bytes.Reader, enabledFeatures api.CoreFeatures) ([]wa
 		}
 	}
 
-	ret := make([]wasm.Table, vs)
-	for i := range ret {
-		err = decodeTable(r, enabledFeatures, &ret[i])
+	ret := make([]wasm.Table, vectorCap(vs, r))
+	for i := uint32(0); i < vs; i++ {
+		err = decodeTable(r, enabledFeatures, elementAt(&ret, i))
 		if err != nil {
 			return nil, err
 		}
@@ -129,9 +129,9 @@ func decodeGlobalSection(r *bytes.Reader, enabledFeatures api.CoreFeatures) ([]w
 		return nil, fmt.Errorf("get size of vector: %w", err)
 	}
 
-	result := make([]wasm.Global, vs)
+	result := make([]wasm.Global, vectorCap(vs, r))
 	for i := uint32(0); i < vs; i++ {
-		if err = decodeGlobal(r, enabledFeatures, &result[i]); err != nil {
+		if err = decodeGlobal(r, enabledFeatures, elementAt(&result, i)); err != nil {
 			return nil, fmt.Errorf("global[%d]: %w", i, err)
 		}
 	}
@@ -144,10 +144,10 @@ func decodeExportSection(r *bytes.Reader) ([]wasm.Export, map[string]*wasm.Expor
 		return nil, nil, fmt.Errorf("get size of vector: %v", sizeErr)
 	}
 
-	exportMap := make(map[string]*wasm.Export, vs)
-	exportSection := make([]wasm.Export, vs)
+	exportMap := make(map[string]*wasm.Export, vectorCap(vs, r))
+	exportSection := make([]wasm.Export, vectorCap(vs, r))
 	for i := wasm.Index(0); i < vs; i++ {
-		export := &exportSection[i]
+		export := elementAt(&exportSection, i)
 		err := decodeExport(r, export)
 		if err != nil {
 			return nil, nil, fmt.Errorf("read export: %w", err)
@@ -175,9 +175,9 @@ func decodeElementSection(r *bytes.Reader, enabledFeatures api.CoreFeatures) ([]
 		return nil, fmt.Errorf("get size of vector: %w", err)
 	}
 
-	result := make([]wasm.ElementSegment, vs)
+	result := make([]wasm.ElementSegment, vectorCap(vs, r))
 	for i := uint32(0); i < vs; i++ {
-		if err = decodeElementSegment(r, enabledFeatures, &result[i]); err != nil {
+		if err = decodeElementSegment(r, enabledFeatures, elementAt(&result, i)); err != nil {
 			return nil, fmt.Errorf("read element: %w", err)
 		}
 	}
@@ -191,9 +191,9 @@ func decodeCodeSection(r *bytes.Reader) ([]wasm.Code, error) {
 		return nil, fmt.Errorf("get size of vector: %w", err)
 	}
 
-	result := make([]wasm.Code, vs)
+	result := make([]wasm.Code, vectorCap(vs, r))
 	for i := uint32(0); i < vs; i++ {
-		err = decodeCode(r, codeSectionStart, &result[i])
+		err = decodeCode(r, codeSectionStart, elementAt(&result, i))
 		if err != nil {
 			return nil, fmt.Errorf("read %d-th code segment: %v", i, err)
 		}
@@ -207,9 +207,9 @@ func decodeDataSection(r *bytes.Reader, enabledFeatures api.CoreFeatures) ([]was
 		return nil, fmt.Errorf("get size of vector: %w", err)
 	}
 
-	result := make([]wasm.DataSegment, vs)
+	result := make([]wasm.DataSegment, vectorCap(vs, r))
 	for i := uint32(0); i < vs; i++ {
-		if err = decodeDataSegment(r, enabledFeatures, &result[i]); err != nil {
+		if err = decodeDataSegment(r, enabledFeatures, elementAt(&result, i)); err != nil {
 			return nil, fmt.Errorf("read data segment: %w", err)
 		}
 	}
